@@ -645,7 +645,10 @@ func (e *Engine) nondetScanResult() *FuncResult {
 		keys = append(keys, k)
 	}
 	sort.Strings(keys)
-	banned := map[string]bool{"time.Now": true, "time.Since": true, "os.Getenv": true, "os.Environ": true, "os.LookupEnv": true, "os.Getpid": true, "os.Hostname": true}
+	// reflect's map iteration is the range-over-map of reflective code: keys come back in no fixed order
+	banned := map[string]bool{"time.Now": true, "time.Since": true, "os.Getenv": true, "os.Environ": true, "os.LookupEnv": true, "os.Getpid": true, "os.Hostname": true,
+		"reflect.Value.MapKeys": true, "reflect.Value.MapRange": true, "reflect.(*MapIter).Next": true, "maps.Keys": true, "maps.Values": true, "maps.All": true,
+		"golang.org/x/exp/maps.Keys": true, "golang.org/x/exp/maps.Values": true}
 	nfn := 0
 	for _, k := range keys {
 		fn := e.fnByKey[k]
@@ -674,6 +677,11 @@ func (e *Engine) nondetScanResult() *FuncResult {
 					if sc := x.Common().StaticCallee(); sc != nil {
 						n := fullName(sc)
 						if banned[n] || strings.HasPrefix(n, "math/rand.") || strings.HasPrefix(n, "math/rand/v2.") || strings.HasPrefix(n, "crypto/rand.") {
+							// keys collected in map order are fine when the very first thing done with them is a
+							// sort by a total order (same rule as for the callers of tools.Keys)
+							if c, isCall := in.(*ssa.Call); isCall && (n == "reflect.Value.MapKeys" || strings.HasSuffix(n, "maps.Keys")) && firstUseIsTotalSort(c) {
+								continue
+							}
 							bad = append(bad, n)
 						}
 					}
@@ -685,7 +693,7 @@ func (e *Engine) nondetScanResult() *FuncResult {
 		}
 	}
 	ctx.addOblig("scan", "functions-scanned", BoolLit(nfn > 0), fmt.Sprint(nfn))
-	ctx.trusted[fmt.Sprintf("scan of %d functions: no goroutine, channel, select, time.Now, math/rand, os.Getenv in cog's non-test code", nfn)] = true
+	ctx.trusted[fmt.Sprintf("scan of %d functions: no goroutine, channel, select, time.Now, math/rand, os.Getenv, reflective or library map iteration (reflect.Value.MapKeys/MapRange, maps.Keys/Values/All) in cog's non-test code", nfn)] = true
 	res.Obligs = ctx.obligs
 	return res
 }
